@@ -185,10 +185,10 @@ class BitStringPayloadDecoder(AbstractSimplePayloadDecoder):
 
             return
 
-        if not length:
-            raise error.PyAsn1Error('Empty BIT STRING substrate')
-
         if tagSet[0].tagFormat == tag.tagFormatSimple:  # XXX what tag to check?
+
+            if not length:
+                raise error.PyAsn1Error('Empty BIT STRING substrate')
 
             for trailingBits in readFromStream(substrate, 1, options):
                 if isinstance(trailingBits, SubstrateUnderrunError):
